@@ -145,7 +145,7 @@ func ZZH_C03_multisign() {
 	digest, err := zzDigest(ibtp, status)
 	zz.Assert("C03.multisign.digest", err == nil)
 	wrong, _ := zzDigest(&pb.IBTP{From: ibtp.From, To: ibtp.To, Index: 2, Type: ibtp.Type}, status)
-	k := zz.Choice("signatures", zz.Tier(4, 5)) // 0..3 signatures (thorough 4)
+	k := zz.Choice("signatures", 4) // 0..3 signatures
 	bp := &pb.BxhProof{TxStatus: status}
 	good := map[int]bool{}
 	for j := 0; j < k; j++ {
